@@ -131,6 +131,10 @@ private:
 
   std::mutex callback_lock;
   std::vector<void*> callback_keys;
+  // Incremented by destroy_sandbox. Callback owners remember the value at
+  // registration, so an owner that outlives a destroy/create cycle knows its
+  // registration is gone and leaves the new incarnation alone.
+  size_t sandbox_incarnation = 0;
 
   void* transition_state = nullptr;
 
@@ -443,6 +447,18 @@ public:
         el_ref != sandbox_list.end(),
         "Unexpected state. Destroying a sandbox that was never initialized.");
       sandbox_list.erase(el_ref);
+    }
+
+    // Nothing cached for or registered with this incarnation may be visible
+    // if the sandbox is created again
+    {
+      RLBOX_ACQUIRE_UNIQUE_GUARD(lock, func_ptr_cache_lock);
+      func_ptr_map.clear();
+    }
+    {
+      std::lock_guard<std::mutex> lock(callback_lock);
+      callback_keys.clear();
+      sandbox_incarnation++;
     }
 
     sandbox_created.store(Sandbox_Status::NOT_CREATED);
